@@ -27,10 +27,27 @@ from harness import core
 GEN = ['States', 'Locks']
 
 MANIFEST = {
-    'level_text': 'filled below',
-    'level_note': 'filled below',
-    'technique': 'Coq proofs (induction over fuel / inbound lists / schedules, invariants) over hand models; '
-                 'source-fact translator for the lock protocol; differential correspondence on the real controllers',
+    'level_text': 'Coq theorems (closed under the global context) over hand models of the decision cores: '
+                  '(1) the logical state of a join is RUNNING iff >= k inbound tasks completed and routed to it, ERROR iff the '
+                  'inbound tasks that can never route to it leave < k, WAITING otherwise - for all definitions, row sets, join '
+                  'kinds all/one/N and inbound counts; RUNNING and ERROR are stable under every continuation of the run, ERROR '
+                  'implies k is unreachable in every continuation; _possible_route (with its visited set) decides exactly the '
+                  'least-fixpoint "can still start" and always returns within |tasks|+2 nested calls, cycles included; '
+                  '(2) reverse: chosen tasks have all requires SUCCESS, lie in the requires-closure of the target, are chosen '
+                  'once, nothing needed is forgotten; invariant over all continue/state-change sequences; '
+                  '(3) check-lock-recheck-act protocol: for any number of racing transactions and any interleaving the join row '
+                  'is inserted / the join started at most once, exactly once when all finished, with the guards extracted '
+                  'from the source into Gen/Locks.v. Models tied to /repo by differential runs of the real controller '
+                  'methods on parsed definitions with generated rows, of the real Task.defer/_refresh_task_state bodies under '
+                  'generated schedules, and by an oracle on whole-engine runs under the deterministic driver.',
+    'level_note': 'Trusted: YAML->spec parsing (only find_outbound_task_names/get_task_requires are compared with the '
+                  'generator), expression evaluation of route conditions (a route either appears in next_tasks or not), the DB '
+                  'semantics assumed by the protocol model (READ COMMITTED, named lock held until transaction end, unique '
+                  'constraint) - the real code runs over an in-memory store implementing exactly these; several executions '
+                  'of one task name (re-entered cycles) and rerun are outside the stability theorems (correspondence only); '
+                  'engine-level start ordering is checked by an oracle on real runs, its theorems are the lead\'s.',
+    'technique': 'Coq proof (induction over fuel / inbound lists / operation sequences / schedules, invariants) over hand '
+                 'models; source-fact translator for the lock protocol; differential correspondence on the real code',
     'design_ref': '6 C04',
 }
 
@@ -468,7 +485,7 @@ def direct_model_expr(spec, rows, plan):
     parts = []
     parts.append(core.coq_list(['show_logical (logical %d sp rows %d %s)' % (FUEL, nat_of(spec, j), coq_jk(spec['tasks'][j]['join']))
                                 for j in plan['joins']]))
-    parts.append(core.coq_list(['show_pr (possible_route %d sp rows %d 1)' % (FUEL, nat_of(spec, t)) for t in plan['routes']]))
+    parts.append(core.coq_list(['show_pr (possible_route_top %d sp rows %d 1)' % (FUEL, nat_of(spec, t)) for t in plan['routes']]))
     parts.append(core.coq_list(['show_induced (induced %d sp rows %d %d)' % (FUEL, nat_of(spec, j), nat_of(spec, s))
                                 for j, s in plan['induced']]))
     parts.append(core.coq_list(['show_state (logical_task_state %d sp rows (mkRow 0 %d %s None))' % (
@@ -718,7 +735,7 @@ def run_direct_cases(ctx, cases, tag):
     for k, c in enumerate(cases):
         c['yaml'] = spec_yaml(c['spec'])
         c['plan'] = make_plan(c['spec'], c['rows'])
-        impl = direct_impl(c['spec'], c['rows'], c['plan'], c['yaml'], check_validity=(k < ctx.n(12, 150)))
+        impl = direct_impl(c['spec'], c['rows'], c['plan'], c['yaml'], check_validity=(k < ctx.n(5, 60)))
         if impl['validated'] != impl['valid_predicted']:
             ctx.disagree(tag + ':validity', {'yaml': c['yaml']}, impl['valid_predicted'], impl['validated'])
         # the generator's reading of the language (task-defaults, engine commands) vs the real spec class
@@ -727,6 +744,8 @@ def run_direct_cases(ctx, cases, tag):
             if mine != impl['outs'][nm]:
                 ctx.disagree(tag + ':outbound', {'yaml': c['yaml'], 'task': nm}, mine, impl['outs'][nm])
         oracle_direct(ctx, c, impl)
+        if c['rows_mode'] not in ('multi',):
+            oracle_affected(ctx, c, impl)
         impls.append(impl)
         exprs.append(direct_model_expr(c['spec'], c['rows'], c['plan']))
         key = '%s/%s%s' % (c.get('spec_mode', 'corpus'), c['rows_mode'], '' if impl['validated'] else '/unvalidated')
@@ -931,7 +950,7 @@ def suite_reverse(ctx):
     for k, c in enumerate(cases):
         spec, rows = c['spec'], c['rows']
         c['yaml'] = rev_yaml(spec)
-        impl = reverse_impl(spec, c['yaml'], rows, check_validity=(k < ctx.n(12, 150)))
+        impl = reverse_impl(spec, c['yaml'], rows, check_validity=(k < ctx.n(5, 60)))
         impls.append(impl)
         if impl['validated'] != reverse_valid(spec):
             ctx.disagree('reverse:validity', {'yaml': c['yaml']}, reverse_valid(spec), impl['validated'])
@@ -1012,20 +1031,822 @@ def suite_reverse_runs(ctx):
             ctx.disagree('reverse_run', c, m, fin)
 
 
+# ---------------------------------------------------------------------------
+# created once, started once: the REAL Task.defer / _refresh_task_state bodies, one thread per transaction,
+# every DB call a scheduling point, over an in-memory store with the transactional behaviour the code relies on
+
+PROTO_IMPORTS = ['Model.JoinProto', 'Gen.Locks']
+
+
+class _Blocked(Exception):
+    pass
+
+
+class TxStore(object):
+    """Committed rows + named locks.  READ COMMITTED (fresh=True): a read sees what is committed now plus the
+    transaction's own writes; fresh=False: the transaction keeps the snapshot of its first read.  A named lock is
+    held until the transaction ends (models.NamedLock docstring).  unique=True: INSERT of an existing committed
+    key raises DBDuplicateEntry, INSERT while another transaction has an uncommitted row of the key blocks."""
+
+    def __init__(self, fresh, unique):
+        self.fresh = fresh
+        self.unique = unique
+        self.committed = {}        # id -> dict(state=..., unique_key=...)
+        self.lock_holder = {}      # name -> tx
+        self.txs = []
+        self.acts = 0              # committed acts (starts) for the refresh protocol
+
+    def visible(self, tx):
+        base = self.committed if (self.fresh or tx.snapshot is None) else tx.snapshot
+        if tx.snapshot is None:
+            tx.snapshot = {k: dict(v) for k, v in self.committed.items()}
+            base = self.committed if self.fresh else tx.snapshot
+        out = {k: dict(v) for k, v in base.items()}
+        for k, v in tx.writes.items():
+            out[k] = dict(v)
+        return out
+
+
+class Tx(object):
+    """One transaction = one thread running real code; `point(kind)` parks it until the scheduler lets it go."""
+
+    def __init__(self, store, pid, body):
+        import threading
+        self.store = store
+        self.pid = pid
+        self.body = body
+        self.snapshot = None
+        self.writes = {}
+        self.held = []
+        self.waiting_for = None     # kind of the DB call it is parked at
+        self.want = None            # lock name / key it wants
+        self.finished = False
+        self.acted = False
+        self.error = None
+        self.trace = []
+        self.go = threading.Semaphore(0)
+        self.arrived = threading.Semaphore(0)
+        self.thread = threading.Thread(target=self._main, daemon=True)
+
+    def _main(self):
+        try:
+            while True:
+                try:
+                    self.body(self)
+                    self.point('commit') if (self.held or self.acted) else None
+                    self._commit()
+                    break
+                except _Retry:
+                    self._rollback()
+        except _Abort:
+            return
+        except BaseException as e:  # noqa
+            self.error = '%s: %s' % (type(e).__name__, e)
+        self.finished = True
+        self.waiting_for = None
+        self.arrived.release()
+
+    def point(self, kind, want=None):
+        self.waiting_for = kind
+        self.want = want
+        self.arrived.release()
+        self.go.acquire()
+        if getattr(self.store, 'abort', False):
+            raise _Abort()
+        self.trace.append(kind)
+
+    def _commit(self):
+        st = self.store
+        for k, v in self.writes.items():
+            st.committed[k] = dict(v)
+        if self.acted:
+            st.acts += 1
+        self._end()
+
+    def _rollback(self):
+        self._end()
+
+    def _end(self):
+        st = self.store
+        for nm in self.held:
+            if st.lock_holder.get(nm) is self:
+                del st.lock_holder[nm]
+        self.held = []
+        self.writes = {}
+        self.snapshot = None
+        self.acted = False
+
+
+class _Retry(Exception):
+    pass
+
+
+class _Abort(BaseException):
+    pass
+
+
+def _blocked(store, tx):
+    """Would the DB call the transaction is parked at block right now?"""
+    if tx.waiting_for == 'lock':
+        h = store.lock_holder.get(tx.want)
+        return h is not None and h is not tx
+    if tx.waiting_for == 'act' and store.unique and tx.want is not None:
+        if any(r.get('unique_key') == tx.want for r in store.committed.values()):
+            return False           # fails at once with a duplicate-key error
+        return any(o is not tx and any(w.get('unique_key') == tx.want for w in o.writes.values()) for o in store.txs)
+    return False
+
+
+def run_schedule(store, bodies, sched):
+    """Run the transactions under the schedule (list of pids); returns per-pid pc codes as the model prints them."""
+    store.txs = [Tx(store, i, b) for i, b in enumerate(bodies)]
+    for tx in store.txs:
+        tx.thread.start()
+        tx.arrived.acquire()
+    for pid in sched:
+        if pid >= len(store.txs):
+            continue
+        tx = store.txs[pid]
+        if tx.finished or _blocked(store, tx):
+            continue
+        tx.go.release()
+        tx.arrived.acquire()
+    codes = []
+    for tx in store.txs:
+        if tx.finished:
+            codes.append(6)
+        else:
+            codes.append({'check': 0, 'lock': 1, 'recheck': 2, 'act': 3, 'commit': 5 if tx.acted else 4}[tx.waiting_for])
+    errors = [tx.error for tx in store.txs if tx.error]
+    store.abort = True             # unpark and end the transactions that did not finish
+    for tx in store.txs:
+        if not tx.finished:
+            tx.go.release()
+    for tx in store.txs:
+        tx.thread.join(5)
+    return codes, errors
+
+
+class _ThreadCurrent(object):
+    """Which Tx the calling thread is."""
+
+    def __init__(self):
+        import threading
+        self.local = threading.local()
+
+
+_CUR = _ThreadCurrent()
+
+
+def _tx():
+    return _CUR.local.tx
+
+
+class FakeTaskRow(object):
+    def __init__(self, id, d, tx):
+        self.id = id
+        self.name = d.get('name', 'j')
+        self.state = d['state']
+        self.state_info = None
+        self.unique_key = d.get('unique_key')
+        self.runtime_context = {}
+        self.workflow_execution_id = 'wf'
+        self.workflow_execution = FakeWfEx([])
+        self._tx = tx
+
+
+def defer_harness():
+    """A fake `db_api` for mistral.engine.tasks and a factory of bodies calling the REAL Task.defer."""
+    from mistral.db.v2 import api as db_api  # noqa
+    from mistral.engine import tasks as tasks_mod
+    from mistral.lang import parser as spec_parser
+    from oslo_db import exception as db_exc
+    import contextlib
+
+    wf_spec = spec_parser.get_workflow_list_spec_from_yaml(
+        "version: '2.0'\nwf:\n  tasks:\n    a:\n      action: std.noop\n      on-success: [j]\n    b:\n      action: std.noop\n"
+        "      on-success: [j]\n    j:\n      join: all\n      action: std.noop\n", validate=False).get_workflows()[0]
+    KEY = 'join-task-wf-j'
+
+    class WfEx(object):
+        id = 'wf'
+        workflow_name = 'wf'
+        workflow_namespace = ''
+        workflow_id = 'wfdef'
+        project_id = 'p'
+        params = {}
+
+    class FakeDb(object):
+        seq = [0]
+
+        def get_task_executions(self, **kw):
+            tx = _tx()
+            kind = 'check' if 'state' in kw else 'recheck'
+            tx.point(kind)
+            out = []
+            for id, r in tx.store.visible(tx).items():
+                if r.get('unique_key') == kw.get('unique_key') and ('state' not in kw or r['state'] == kw['state']):
+                    out.append(FakeTaskRow(id, r, tx))
+            return out
+
+        @contextlib.contextmanager
+        def named_lock(self, name):
+            tx = _tx()
+            tx.point('lock', name)
+            assert tx.store.lock_holder.get(name) in (None, tx)
+            tx.store.lock_holder[name] = tx
+            tx.held.append(name)
+            yield
+            # delete_named_lock: the row lock of the named_locks entry lives until the transaction ends
+
+        def create_task_execution(self, values):
+            tx = _tx()
+            tx.point('act', values['unique_key'])
+            st = tx.store
+            if st.unique and any(r.get('unique_key') == values['unique_key'] for r in st.committed.values()):
+                raise db_exc.DBDuplicateEntry()
+            self.seq[0] += 1
+            id = 'row%d' % self.seq[0]
+            tx.writes[id] = {'state': values['state'], 'unique_key': values['unique_key'], 'name': values['name']}
+            tx.acted = True
+            return FakeTaskRow(id, tx.writes[id], tx)
+
+    fake = FakeDb()
+
+    def body(tx):
+        _CUR.local.tx = tx
+        t = tasks_mod.RegularTask(WfEx(), wf_spec, wf_spec.get_tasks()['j'], {}, task_ex=None, unique_key=KEY,
+                                  waiting=True, triggered_by=[{'task_id': 'x', 'event': 'on-success'}])
+        try:
+            t.defer()
+        except db_exc.DBDuplicateEntry:
+            raise _Retry()      # db_utils.retry_on_db_error around the engine entry point
+    return tasks_mod, fake, body, KEY
+
+
+def probe_defer(existing_state, cyclic, known_trigger=False):
+    """What the REAL Task.defer does when the join execution already exists in `existing_state` (None = absent) and
+    a task routes to it: 'create' | 'keep' | 'rearm' (put back to WAITING).  Sequential, no race."""
+    from unittest import mock
+    from mistral.db.v2 import api as db_api  # noqa
+    from mistral.engine import tasks as tasks_mod
+    from mistral.lang import parser as spec_parser
+    import contextlib
+    text = ("version: '2.0'\nwf:\n  tasks:\n    a:\n      action: std.noop\n      on-success: [j]\n    b:\n      action: std.noop\n"
+            "      on-success: [j]\n    j:\n      join: one\n      action: std.noop\n")
+    if cyclic:
+        text += "      on-success: [a]\n"
+    wf_spec = spec_parser.get_workflow_list_spec_from_yaml(text, validate=False).get_workflows()[0]
+    KEY = 'join-task-wf-j'
+    effects = []
+
+    class WfEx(object):
+        id = 'wf'
+        workflow_name = 'wf'
+        workflow_namespace = ''
+        workflow_id = 'wfdef'
+        project_id = 'p'
+        params = {}
+
+    row = None
+    if existing_state is not None:
+        row = FakeTaskRow('row1', {'state': existing_state, 'unique_key': KEY, 'name': 'j'}, None)
+        row.runtime_context = {'triggered_by': [{'task_id': 'ta', 'event': 'on-success'}]}
+
+    class FakeDb(object):
+        def get_task_executions(self, **kw):
+            if row is None or ('state' in kw and row.state != kw['state']):
+                return []
+            return [row]
+
+        @contextlib.contextmanager
+        def named_lock(self, name):
+            yield
+
+        def create_task_execution(self, values):
+            effects.append('create')
+            return FakeTaskRow('row2', {'state': values['state'], 'unique_key': values['unique_key'], 'name': 'j'}, None)
+
+    def set_state(self, state, state_info, processed=None, first_run=False):
+        effects.append('rearm' if state == 'WAITING' else 'set:%s' % state)
+        return True
+    trig = [{'task_id': 'ta' if known_trigger else 'tb', 'event': 'on-success'}]
+    with mock.patch.object(tasks_mod, 'db_api', FakeDb()), mock.patch.object(tasks_mod.Task, 'set_state', set_state):
+        t = tasks_mod.RegularTask(WfEx(), wf_spec, wf_spec.get_tasks()['j'], {}, task_ex=None, unique_key=KEY,
+                                  waiting=True, triggered_by=trig)
+        t.defer()
+    return effects[0] if effects else 'keep'
+
+
+def suite_defer_decision(ctx):
+    """on_trigger of Model/JoinLife.v (with the re-arm flags of Gen/Locks.v) vs the real Task.defer."""
+    abstract = {None: 'JAbsent', 'WAITING': 'JWaiting', 'RUNNING': 'JRunning', 'DELAYED': 'JRunning', 'PAUSED': 'JRunning',
+                'IDLE': 'JRunning', 'SUCCESS': 'JDone', 'ERROR': 'JDone', 'CANCELLED': 'JDone', 'SKIPPED': 'JDone'}
+    exprs, obs, cases = [], [], []
+    for cyclic in (False, True):
+        for st in [None] + STATES:
+            eff = probe_defer(st, cyclic)
+            flag = 'defer_rearm_cyclic' if cyclic else 'defer_rearm_acyclic'
+            exprs.append('jstate_code (on_trigger %s %s)' % (flag, abstract[st]))
+            # the state the real code leaves behind, abstracted the same way
+            after = {'create': 'JWaiting', 'rearm': 'JWaiting', 'keep': abstract[st]}.get(eff, eff)
+            obs.append({'JAbsent': 0, 'JWaiting': 1, 'JRunning': 2, 'JDone': 3}.get(after, after))
+            cases.append({'existing': st, 'cyclic': cyclic, 'effect': eff})
+    res = core.coq_eval('c04defer', ['Model.JoinLife', 'Gen.Locks'], exprs)
+    for c, o, r in zip(cases, obs, res):
+        ctx.count('defer_decision', json.dumps(c, sort_keys=True), nontrivial=c['existing'] is not None)
+        ctx.cov['disagreements_checked'] += 1
+        if str(o) != r.strip():
+            ctx.disagree('defer_decision', c, r, o)
+    ctx.cov['suites']['defer_decision']['effects'] = {'%s/%s' % (c['existing'], 'cyclic' if c['cyclic'] else 'acyclic'): c['effect'] for c in cases}
+
+
+def refresh_harness():
+    """A fake environment for mistral.engine.task_handler and bodies calling the REAL _refresh_task_state."""
+    from mistral.db.v2 import api as db_api  # noqa
+    from mistral.engine import task_handler as th
+    from mistral.workflow import base as wf_base
+    import contextlib
+
+    raw = th._refresh_task_state
+    while hasattr(raw, '__wrapped__'):
+        raw = raw.__wrapped__
+
+    class FakeDb(object):
+        @contextlib.contextmanager
+        def transaction(self):
+            yield
+
+        def load_task_execution(self, id):
+            tx = _tx()
+            tx.point('check')
+            r = tx.store.visible(tx).get(id)
+            return FakeTaskRow(id, r, tx) if r else None
+
+        @contextlib.contextmanager
+        def named_lock(self, name):
+            tx = _tx()
+            tx.point('lock', name)
+            assert tx.store.lock_holder.get(name) in (None, tx)
+            tx.store.lock_holder[name] = tx
+            tx.held.append(name)
+            yield
+
+        def refresh(self, obj):
+            tx = _tx()
+            tx.point('recheck')
+            obj.state = tx.store.visible(tx)[obj.id]['state']
+
+    class Ctrl(object):
+        def get_logical_task_state(self, task_ex):
+            return wf_base.TaskLogicalState('RUNNING', triggered_by=[])
+
+    def continue_task(task_ex):
+        tx = _tx()
+        tx.point('act')
+        tx.writes[task_ex.id] = {'state': 'RUNNING', 'unique_key': task_ex.unique_key, 'name': task_ex.name}
+        task_ex.state = 'RUNNING'
+        tx.acted = True
+
+    def complete_task(task_ex, state, state_info):
+        raise AssertionError('logical state is RUNNING')
+
+    class SpecParser(object):
+        @staticmethod
+        def get_workflow_spec_by_execution_id(id):
+            return None
+
+    class WfBase(object):
+        @staticmethod
+        def get_controller(wf_ex, wf_spec):
+            return Ctrl()
+
+    patches = {'db_api': FakeDb(), 'continue_task': continue_task, 'complete_task': complete_task,
+               'spec_parser': SpecParser, 'wf_base': WfBase}
+
+    def body(tx):
+        _CUR.local.tx = tx
+        raw('join-row')
+    return th, patches, body
+
+
+def suite_proto(ctx):
+    """Schedules x environments: real control flow over the store vs Model/JoinProto.run with the guards of Gen/Locks.v."""
+    from unittest import mock
+    from mistral.db.v2 import api as db_api  # noqa
+    from mistral.db.v2.sqlalchemy import models
+    rng = ctx.rng
+    schema_unique = any(type(c).__name__ == 'UniqueConstraint' and [col.name for col in c.columns] == ['unique_key']
+                        for c in models.TaskExecution.__table__.constraints)
+    tasks_mod, fake_db, defer_body, KEY = defer_harness()
+    th, patches, refresh_body = refresh_harness()
+    n_cases = ctx.n(160, 2500)
+    exprs, obs, cases = [], [], []
+    dist = ctx.cov['suites'].setdefault('proto', {'evaluations': 0, 'distinct_nontrivial': 0})
+    kinds = dist.setdefault('kinds', {})
+    for k in range(n_cases):
+        which = 'defer' if k % 2 == 0 else 'refresh'
+        n = rng.choice([1, 2, 2, 3, 3, 4])
+        fresh = rng.random() < 0.7
+        unique = (rng.random() < 0.5) if which == 'defer' else False
+        style = rng.choice(['random', 'random', 'rr', 'bursts'])
+        L = rng.randrange(4, 9 * n + 4)
+        if style == 'rr':
+            sched = [i % n for i in range(L)]
+        elif style == 'bursts':
+            sched = []
+            while len(sched) < L:
+                sched += [rng.randrange(n)] * rng.randrange(1, 5)
+        else:
+            sched = [rng.randrange(n + (1 if rng.random() < 0.1 else 0)) for _ in range(L)]
+        store = TxStore(fresh, unique)
+        if which == 'defer':
+            with mock.patch.object(tasks_mod, 'db_api', fake_db):
+                codes, errors = run_schedule(store, [defer_body] * n, sched)
+            count = sum(1 for r in store.committed.values() if r.get('unique_key') == KEY)
+            cfg = '(mkCfg defer_locked defer_recheck %s %s)' % (core.coq_bool(fresh), core.coq_bool(unique))
+        else:
+            store.committed['join-row'] = {'state': 'WAITING', 'unique_key': KEY, 'name': 'j'}
+            with mock.patch.multiple(th, **patches):
+                codes, errors = run_schedule(store, [refresh_body] * n, sched)
+            count = store.acts
+            cfg = '(mkCfg (refresh_locked && continue_locked) refresh_recheck %s false)' % core.coq_bool(fresh)
+        case = {'kind': 'proto', 'which': which, 'n': n, 'fresh': fresh, 'unique': unique, 'sched': sched}
+        if errors:
+            ctx.disagree('proto:thread-error', case, 'no error', errors[:2])
+        # the property, under the isolation level the code documents and the constraint the schema has
+        if fresh and (which == 'refresh' or unique == schema_unique):
+            if count > 1:
+                ctx.fail('join-created-twice' if which == 'defer' else 'join-started-twice',
+                         '%d transactions racing in %s: %d %s' % (n, 'Task.defer' if which == 'defer' else '_refresh_task_state',
+                                                                   count, 'join rows with one unique key' if which == 'defer'
+                                                                   else 'starts of one join execution'),
+                         dict(case, observed=count, required='<= 1'))
+            if all(c == 6 for c in codes) and count != 1:
+                ctx.fail('join-%s-never' % ('created' if which == 'defer' else 'started'),
+                         'all %d transactions finished and the join was %s %d times' % (n, 'created' if which == 'defer' else 'started', count),
+                         dict(case, observed=count, required='= 1'))
+        exprs.append('show_sys (run %s %d %s) %d' % (cfg, n, core.coq_list([str(x) for x in sched]), n))
+        obs.append([count, codes])
+        cases.append(case)
+        kk = '%s/n=%d/%s/%s' % (which, n, 'rc' if fresh else 'rr-iso', 'uniq' if unique else 'nouniq')
+        kinds[kk] = kinds.get(kk, 0) + 1
+    res = core.coq_eval('c04proto', PROTO_IMPORTS, exprs, chunk=100)
+    for c, o, r in zip(cases, obs, res):
+        m = flat(parse_coq(r))
+        m = [m[0], list(m[1])]
+        ctx.count('proto', json.dumps(c, sort_keys=True), nontrivial=c['n'] > 1, evaluations=len(c['sched']))
+        ctx.cov['disagreements_checked'] += 1
+        ctx.cov['traces_validated_against_impl'] += 1
+        if m != o:
+            ctx.disagree('proto:' + c['which'], c, m, o)
+    ctx.sample({'suite': 'proto', 'case': cases[-1], 'observed': obs[-1]})
+    ctx.cov['suites']['proto']['schema_has_unique_key_constraint'] = schema_unique
+
+
+# ---------------------------------------------------------------------------
+# whole engine under the deterministic driver: implementation-side oracle only (trace correspondence with the
+# engine model is the lead's suite, see engine_traces)
+
+def engine_yaml(spec, wf_name):
+    import yaml
+
+    def clause(lst):
+        return [({e[0]: e[1]} if e[1] else e[0]) for e in lst]
+    wf = {'type': 'direct', 'tasks': {}}
+    if spec['defaults']:
+        wf['task-defaults'] = {ev: clause(l) for ev, l in spec['defaults'].items()}
+    for nm in spec['order']:
+        t = spec['tasks'][nm]
+        d = {'action': 'verif.act tag="%s"' % nm}
+        if t['join'] is not None:
+            d['join'] = t['join']
+        for ev in EVENTS[:3]:
+            if t[ev]:
+                d[ev] = clause(t[ev])
+        wf['tasks'][nm] = d
+    return yaml.safe_dump({'version': '2.0', wf_name: wf}, sort_keys=False, default_flow_style=False)
+
+
+def gen_engine_spec(rng):
+    """Small fork/join shapes: nested joins, joins fed by on-error / on-complete, conditional routes that fire or not."""
+    while True:
+        spec = gen_direct_spec(rng, rng.choice(['dag', 'dag', 'dag', 'chain', 'cyclic']))
+        if len(spec['order']) > 9:
+            continue
+        for nm in spec['order']:
+            spec['tasks'][nm]['on-skip'] = []
+            for ev in EVENTS[:3]:
+                lst = [e for e in spec['tasks'][nm][ev] if e[0] not in ('pause',)]
+                for e in lst:
+                    if e[1]:
+                        e[1] = rng.choice(['<% $.get(x, 0) = 1 %>', '<% 1 = 1 %>'])
+                spec['tasks'][nm][ev] = lst
+        if spec['defaults']:
+            spec['defaults'] = {ev: l for ev, l in spec['defaults'].items() if ev != 'on-skip'} or None
+        for nm in spec['order']:
+            j = spec['tasks'][nm]['join']
+            if j is not None and j != 'all' and j != 'one':
+                cnt = len(inbound_of(spec, nm))
+                if j == 0 or j > cnt:
+                    spec['tasks'][nm]['join'] = 'all' if cnt else None
+            if spec['tasks'][nm]['join'] in ('all', 'one') and not inbound_of(spec, nm):
+                spec['tasks'][nm]['join'] = None
+        if direct_valid(spec) and any(spec['tasks'][nm]['join'] for nm in spec['order']):
+            return spec
+
+
+def is_acyclic(spec):
+    color = {}
+
+    def visit(n):
+        color[n] = 1
+        for o in outs_of(spec, n):
+            if o in CMDS:
+                continue
+            if color.get(o) == 1:
+                return False
+            if o not in color and not visit(o):
+                return False
+        color[n] = 2
+        return True
+    return all(visit(n) for n in spec['order'] if n not in color)
+
+
+def view_rows(v, wf='R'):
+    """Task rows of the root workflow in creation order of their canonical ids: [{'name','state','next', 'cid'}]"""
+    rows = []
+    for cid, t in v['tasks'].items():
+        m = re.match(r'^%s/(\w+)#(\d+)$' % re.escape(wf), cid)
+        if not m:
+            continue
+        rows.append({'id': cid, 'name': m.group(1), 'k': int(m.group(2)), 'state': t['state'],
+                     'next': t['next_tasks'] if t['state'] in COMPLETED else None})
+    rows.sort(key=lambda r: (r['name'], r['k']))
+    return rows
+
+
+def oracle_engine_view(ctx, spec, v, rep, acyclic, seen):
+    rows = view_rows(v)
+    by_name = {}
+    for r in rows:
+        by_name.setdefault(r['name'], []).append(r)
+    acts = {}
+    for aid in v['actions']:
+        m = re.match(r'^R/(\w+)#(\d+)!', aid)
+        if m:
+            acts.setdefault((m.group(1), int(m.group(2))), []).append(aid)
+    for j in spec['order']:
+        jk = spec['tasks'][j]['join']
+        if not jk:
+            continue
+        jrows = by_name.get(j, [])
+        if len(jrows) > 1:
+            ctx.fail('join-created-twice:engine', 'join %s has %d task executions in one workflow execution' % (j, len(jrows)),
+                     dict(rep, join=j))
+        if not jrows or not acyclic or len(set(r['name'] for r in rows)) != len(rows):
+            # joins on cycles, and definitions where a task with several inbound transitions ran more than once
+            # (the code keeps ONE execution per name, see the TODOs in direct_workflow.py), are outside the oracle
+            continue
+        jr = jrows[-1]
+        n_acts = len(acts.get((j, jr['k']), []))
+        if n_acts > 1:
+            partial = jk != 'all' and k_of(jk, len(inbound_of(spec, j))) < len(inbound_of(spec, j))
+            ctx.fail('partial-join-rerun-by-late-branch' if partial else 'join-started-twice:engine',
+                     'join %s (join: %s, %d inbound tasks) has %d action executions in one run' % (j, jk, len(inbound_of(spec, j)), n_acts),
+                     dict(rep, join=j, observed='%d action executions' % n_acts, required='1'))
+        started = jr['state'] not in ('WAITING',) and not (jr['state'] == 'ERROR' and n_acts == 0) and jr['state'] != 'CANCELLED'
+        want, routed, dead = prescribed_join_state(spec, [r for r in rows if r['name'] != j], j)
+        ins = inbound_of(spec, j)
+        k = k_of(jk, len(ins))
+        if (started or n_acts > 0) and (j, 'start') not in seen:
+            seen.add((j, 'start'))
+            if routed < k:
+                ctx.fail('join-premature-start:engine',
+                         'join %s is %s with %d action executions while %d of %d required inbound tasks completed and routed to it'
+                         % (j, jr['state'], n_acts, routed, k), dict(rep, join=j, rows=rows))
+        if jr['state'] == 'ERROR' and n_acts == 0 and (j, 'err') not in seen:
+            seen.add((j, 'err'))
+            if want != 'ERROR' and v['wf'].get('R', {}).get('state') not in ('ERROR', 'CANCELLED'):
+                ctx.fail('join-fails-while-reachable:engine',
+                         'join %s failed without running although %d inbound tasks can still route to it (needs %d)'
+                         % (j, len(ins) - dead, k), dict(rep, join=j, rows=rows))
+
+
+def suite_engine_oracle(ctx):
+    import random as _random
+    from harness import engine_driver as ed
+    rng = ctx.rng
+    d = ed.Driver('legacy', ctx.seed)
+    n_specs = ctx.n(16, 300)
+    dist = ctx.cov['suites'].setdefault('engine', {'evaluations': 0, 'distinct_nontrivial': 0})
+    finals = dist.setdefault('final_wf_states', {})
+    jstates = dist.setdefault('final_join_states', {})
+    for si in range(n_specs):
+        spec = gen_engine_spec(rng)
+        acyclic = is_acyclic(spec)
+        name = 'wfc04_%d' % si
+        text = engine_yaml(spec, name)
+        for rep_i in range(ctx.n(1, 2)):
+            sseed = rng.randrange(1 << 30)
+            outcomes = {nm: rng.choice(['ok', 'ok', 'ok', 'ok', 'ok', 'err']) for nm in spec['order']}
+            d.reset(sseed)
+            try:
+                d.create_workflows(text)
+            except Exception as e:
+                ctx.disagree('engine:definition-rejected', {'yaml': text}, 'valid (generator)', '%s: %s' % (type(e).__name__, str(e)[:200]))
+                break
+            for nm, o in outcomes.items():
+                d.oracle[(nm, None, None)] = ('ok', 1) if o == 'ok' else ('err', 'boom')
+            rep = {'kind': 'engine', 'yaml': text, 'spec': spec, 'wf_name': name, 'outcomes': outcomes, 'schedule_seed': sseed}
+            out, wid = d.start_workflow(name, {})
+            seen = set()
+            events = [0]
+
+            def on_event(ev, out, spec=spec, rep=rep, acyclic=acyclic, seen=seen, events=events):
+                events[0] += 1
+                oracle_engine_view(ctx, spec, d.view(), rep, acyclic, seen)
+            srng = _random.Random(sseed)
+            oracle_engine_view(ctx, spec, d.view(), rep, acyclic, seen)
+            d.run_schedule(srng, max_events=600, on_event=on_event)
+            v = d.view()
+            wf_state = v['wf'].get('R', {}).get('state')
+            finals[str(wf_state)] = finals.get(str(wf_state), 0) + 1
+            rows = view_rows(v)
+            for j in spec['order']:
+                if spec['tasks'][j]['join']:
+                    st = [r['state'] for r in rows if r['name'] == j]
+                    key = st[-1] if st else 'absent'
+                    jstates[key] = jstates.get(key, 0) + 1
+                    others = [r for r in rows if r['name'] != j]
+                    if st and st[-1] == 'WAITING' and wf_state == 'RUNNING' and events[0] < 600 and (
+                            acyclic or prescribed_join_state(spec, others, j)[0] != 'WAITING'):
+                        errs = sorted(set(e['type'] for e in d.entry_errors))
+                        ctx.fail('join-waits-forever:engine' + (':' + errs[0] if errs else ''),
+                                 'the run is quiescent, workflow RUNNING, join %s still WAITING%s' % (
+                                     j, ' (exceptions in jobs: %s)' % errs if errs else ''), dict(rep, join=j, rows=rows))
+            ctx.count('engine', (text, sseed, json.dumps(outcomes, sort_keys=True)), nontrivial=True, evaluations=events[0] + 1)
+            ctx.cov['traces_validated_against_impl'] += 1
+    ctx.sample({'suite': 'engine', 'yaml': text, 'outcomes': outcomes, 'final': wf_state})
+
+
 def engine_traces(ctx):
     pass
 
 
 def run(ctx):
-    ctx.cov['rule'] = 'distinct = distinct (suite, definition, row set / schedule); non-trivial = the definition has a join'
-    for f in (suite_direct, suite_reverse, suite_reverse_runs, engine_traces):
+    import time
+    ctx.cov['rule'] = ('seeded generators: direct definitions (dag / long chains crossing MAX_SEARCH_DEPTH / cyclic / wild incl. '
+                       'task-defaults, engine commands, join 0 and join > inbound) x row sets (prefix of a plausible run / random / '
+                       'several rows per name / completed rows without next_tasks); reverse definitions x row sets and whole '
+                       'runs; schedules of 1-4 racing transactions x isolation x unique constraint; engine runs under seeded '
+                       'schedules; distinct = distinct (suite, definition, rows | ops | schedule); non-trivial = has a join / '
+                       'more than one task / more than one transaction')
+    times = ctx.cov.setdefault('suite_wall_s', {})
+    for f in (suite_direct, suite_reverse, suite_reverse_runs, suite_proto, suite_defer_decision, suite_engine_oracle,
+              engine_traces):
+        t0 = time.time()
         f(ctx)
+        times[f.__name__] = round(time.time() - t0, 1)
+    ctx.cov['definitions_checked_by_real_validator'] = _VALIDATED['n']
+    ctx.assumptions += [
+        'a route condition either puts the target into next_tasks or not (expression evaluation is not modelled)',
+        'DB semantics of the protocol model: READ COMMITTED reads, named lock held until the transaction ends, '
+        'unique constraint on task_executions_v2.unique_key (models.NamedLock docstring, TaskExecution.__table_args__)',
+        'stability theorems: one execution per task name, completed executions final (no rerun, no re-entered cycle)',
+        'engine-level oracle: joins on cycles are checked for row uniqueness and (when prescribed) for not waiting forever only',
+    ]
+
+
+def oracle_only_direct(ctx, cases):
+    for c in cases:
+        c['yaml'] = spec_yaml(c['spec'])
+        c['plan'] = {'joins': [nm for nm in c['spec']['order'] if c['spec']['tasks'][nm]['join'] is not None],
+                     'routes': [], 'induced': [], 'lts': [], 'affected': []}
+        oracle_direct(ctx, c, direct_impl(c['spec'], c['rows'], c['plan'], c['yaml']))
+
+
+def oracle_affected(ctx, case, impl):
+    """Completion of a task must refresh every join execution whose logical state it can change: a join with a row,
+    reachable from the task through tasks that are not joins with a row (plain worklist search)."""
+    spec, rows = case['spec'], case['rows']
+    have = set(r['name'] for r in rows)
+    for t, got in zip(case['plan']['affected'], impl['affected']):
+        if got[0] != 'ok':
+            continue
+        seen, work, want = {t}, [o for o in outs_of(spec, t)], set()
+        while work:
+            x = work.pop()
+            if x in seen or x in CMDS:
+                continue
+            seen.add(x)
+            if spec['tasks'][x]['join'] and x in have:
+                want.add(nat_of(spec, x))
+                continue
+            work.extend(outs_of(spec, x))
+        if sorted(want) != got[1]:
+            ctx.fail('join-not-refreshed' if want - set(got[1]) else 'refresh-of-unaffected-join',
+                     'completion of %s refreshes joins %s, the joins depending on it are %s' % (t, got[1], sorted(want)),
+                     {'kind': 'affected', 'yaml': case['yaml'], 'spec': spec, 'rows': rows, 'task': t,
+                      'observed': got[1], 'required': sorted(want)})
 
 
 def search(ctx):
-    pass
+    """Widened oracle-only search for a failing input (no model involved)."""
+    oracle_only_direct(ctx, [dict(c) for c in CORPUS_DIRECT] + gen_direct_cases(ctx, 3000))
+    rng = ctx.rng
+    for _ in range(2000):
+        spec = gen_reverse_spec(rng, rng.choice(['dag', 'dag', 'cyclic']))
+        rows = gen_rev_rows(rng, spec, rng.choice(['run', 'run', 'random']))
+        text = rev_yaml(spec)
+        impl = reverse_impl(spec, text, rows)
+        if impl['next'][0] == 'ok' and impl['validated']:
+            oracle_reverse(ctx, spec, text, rows, impl['next'][1])
+    if not ctx.failures:
+        saved = ctx.tier
+        ctx.tier = 'thorough'
+        try:
+            suite_engine_oracle(ctx)
+        finally:
+            ctx.tier = saved
 
 
 def replay(obj):
-    print(json.dumps(obj, indent=1)[:3000])
-    return 1
+    import logging
+    logging.disable(logging.CRITICAL)
+    r = obj.get('replay') or {}
+    kind = r.get('kind')
+    ctx = core.Ctx('C04', 'quick', obj.get('seed', 0))
+    if kind == 'direct':
+        c = {'spec': r['spec'], 'rows': r['rows'], 'rows_mode': 'run'}
+        oracle_only_direct(ctx, [c])
+    elif kind == 'affected':
+        c = {'spec': r['spec'], 'rows': r['rows'], 'rows_mode': 'run'}
+        c['yaml'] = spec_yaml(c['spec'])
+        c['plan'] = {'joins': [], 'routes': [], 'induced': [], 'lts': [], 'affected': [r['task']]}
+        oracle_affected(ctx, c, direct_impl(c['spec'], c['rows'], c['plan'], c['yaml']))
+    elif kind == 'reverse':
+        impl = reverse_impl(r['spec'], r['yaml'], r['rows'])
+        print('returned: %s' % (impl['next'],))
+        if impl['next'][0] == 'ok':
+            oracle_reverse(ctx, r['spec'], r['yaml'], r['rows'], impl['next'][1])
+        else:
+            ctx.fail('reverse-controller-crash', 'raises', r)
+    elif kind == 'proto':
+        replay_proto(ctx, r)
+    elif kind == 'engine':
+        replay_engine(ctx, r)
+    else:
+        print(json.dumps(obj, indent=1)[:4000])
+        return 1
+    for f in ctx.failures[:5]:
+        print('STILL FAILS [%s] %s' % (f['signature'], f['what']))
+    if not ctx.failures:
+        print('the recorded input no longer violates the property (recorded: %s)' % obj.get('what'))
+    return 1 if ctx.failures else 0
+
+
+def replay_proto(ctx, r):
+    from unittest import mock
+    store = TxStore(r['fresh'], r['unique'])
+    if r['which'] == 'defer':
+        tasks_mod, fake_db, body, KEY = defer_harness()
+        with mock.patch.object(tasks_mod, 'db_api', fake_db):
+            codes, errors = run_schedule(store, [body] * r['n'], r['sched'])
+        count = sum(1 for x in store.committed.values() if x.get('unique_key') == KEY)
+    else:
+        th, patches, body = refresh_harness()
+        store.committed['join-row'] = {'state': 'WAITING', 'unique_key': 'k', 'name': 'j'}
+        with mock.patch.multiple(th, **patches):
+            codes, errors = run_schedule(store, [body] * r['n'], r['sched'])
+        count = store.acts
+    print('%s: %d transactions, schedule %s -> %d (required %s)' % (r['which'], r['n'], r['sched'], count, r.get('required')))
+    if count > 1 or (all(c == 6 for c in codes) and count != 1):
+        ctx.fail('join-%s-not-once' % r['which'], 'count=%d' % count, r)
+
+
+def replay_engine(ctx, r):
+    import random as _random
+    from harness import engine_driver as ed
+    d = ed.Driver('legacy', 0)
+    d.reset(r['schedule_seed'])
+    d.create_workflows(r['yaml'])
+    for nm, o in r['outcomes'].items():
+        d.oracle[(nm, None, None)] = ('ok', 1) if o == 'ok' else ('err', 'boom')
+    spec = r['spec']
+    acyclic = is_acyclic(spec)
+    seen = set()
+    d.start_workflow(r['wf_name'], {})
+    n = d.run_schedule(_random.Random(r['schedule_seed']), max_events=600,
+                       on_event=lambda ev, out: oracle_engine_view(ctx, spec, d.view(), r, acyclic, seen))
+    v = d.view()
+    rows = view_rows(v)
+    print('final workflow state %s; tasks %s' % (v['wf'].get('R', {}).get('state'), [(x['name'], x['state']) for x in rows]))
+    for j in spec['order']:
+        st = [x['state'] for x in rows if x['name'] == j]
+        others = [x for x in rows if x['name'] != j]
+        if spec['tasks'][j]['join'] and st and st[-1] == 'WAITING' and v['wf']['R']['state'] == 'RUNNING' and n < 600 and (
+                acyclic or prescribed_join_state(spec, others, j)[0] != 'WAITING'):
+            ctx.fail('join-waits-forever:engine', 'join %s WAITING at quiescence' % j, r)
+
+
